@@ -6,6 +6,10 @@ props = [json.loads(l) for l in open(os.path.join(V, "properties.jsonl"))]
 
 EVAL_NOTE = "trusted: TLC; the renderer's canonical layout and path->line map; H2 hook events (emitted after each VM state change in the single evaluator goroutine); program families are bounded (sizes in the evidence)"
 CHECKS = {
+ "C15": dict(
+   technique="TLA+ depth-first module loader state machine (ZnModule) model-checked by TLC over all import digraphs; TLC-emitted body traces/results replayed as directories of .zn files through LoadFile().Execute",
+   level="TLC enumerates all 512 digraphs (self-loops included) on three imported modules x all 15 ordered import lists of the main file, plus all digraphs on two modules with a missing third one, runs the loader machine (body at most once, imports before body, circular error iff a cycle is reachable - checked against an independent transitive-closure definition) and emits the body trace and the result. Each of the 8256 vectors is written to disk (module names with 1-3 path segments) and executed: order and multiplicity of module bodies, error code 63 / 60, per-module probes (an imported method must be able to call its own module's helper; names of modules main did not import are undefined), plus export / read-only / selective-import probe programs.",
+   note="trusted: TLC; alphabetical import order inside generated modules; 3 modules (4 would be 65536 digraphs: thorough tier candidate)", ref="5 C15"),
  "C10": dict(
    technique="TLA+ member-table spec with total validator semantics (ZnBuiltins) enumerated by TLC; every invocation replayed in worker processes (panic/exit/hang are observations); member tables extracted from the Go sources bound to the spec's tables",
    level="TLC enumerates receiver kind (11 value kinds + free functions/constructors) x every member of the spec's tables (+ an unknown member) x access {get,set,call,new} x all argument tuples of arity <= 2 over an 18-value boundary pool (281k invocations; quick: all of arity <= 1 plus a seeded 45000), with the outcome the validator patterns demand; plus random tuples of arity 3-4 per method, 37 operator/index/assignment/iteration/construction/throw/format forms on every receiver kind, and input-variable texts. Each case runs in a worker process and must end as a value or a Zn error - never a Go panic, a nil result, a process exit or a hang. The getter/setter/method tables and Register* calls extracted from the sources must equal the spec's tables (otherwise exit 2, unmodelled).",
